@@ -321,7 +321,7 @@ theorem isIsotropic_accepts_KG (kap mu eps : K) (hs : fn.sqrt 0 = 0) (he : 0 < e
 Reference: the 3D tensor `iso_TRIDIM_UNALT`, which is `λ I⊗I + 2μ Id` with the Lamé coefficients of (E, ν).
 Every other hypothesis returns its sub-block (`block4`: 11,22,33,12; `block3`: 11,22,33); in plane stress and
 axisymmetrical generalised plane stress the `ALTERED` tensor is the condensed one (`condense4`/`condense3`:
-Schur complement with respect to the third normal component, third row and column zero). `g`, `g'` are the
+Schur complement with respect to the stress-free normal component — the third one in plane stress, the second one (`zz`) in 1D — whose row and column are zero). `g`, `g'` are the
 garbage pre-filled in the output tensors. -/
 
 theorem iso_TRIDIM_spec (E nu g : K) :
@@ -575,7 +575,8 @@ theorem ortho_TRIDIM_ALT_reduction (E1 E2 E3 nu12 nu23 nu13 G12 G23 G13 g g' : K
     Gen.ortho_TRIDIM_ALT_all c c3 fn E1 E2 E3 nu12 nu23 nu13 G12 G23 G13 g
       = Gen.ortho_TRIDIM_UNALT_all c c3 fn E1 E2 E3 nu12 nu23 nu13 G12 G23 G13 g' := by c21_eq
 
-/-! ### axes conventions: `DEFAULT` never permutes; `PIPE` exchanges the second and third material axes in the
+/-! ### axes conventions: `DEFAULT` and `PLATE` never permute (`PLATE`: rolling, transverse, normal directions
+are the 3D axes in every hypothesis it supports); `PIPE` exchanges the second and third material axes in the
 plane hypotheses (plane stress, plane strain, generalised plane strain) and nowhere else -/
 
 theorem ortho_AGPE_UNALT_DEFAULT_agree (E1 E2 E3 nu12 nu23 nu13 G12 G23 G13 g : K) :
@@ -584,11 +585,17 @@ theorem ortho_AGPE_UNALT_DEFAULT_agree (E1 E2 E3 nu12 nu23 nu13 G12 G23 G13 g : 
 theorem ortho_AGPE_UNALT_PIPE_agree (E1 E2 E3 nu12 nu23 nu13 G12 G23 G13 g : K) :
     Gen.ortho_AGPE_UNALT_PIPE_all c c3 fn E1 E2 E3 nu12 nu23 nu13 G12 G23 G13 g = Gen.ortho_AGPE_UNALT_all c c3 fn E1 E2 E3 nu12 nu23 nu13 G12 G23 G13 g := by c21_eq
 
+theorem ortho_AGPE_UNALT_PLATE_agree (E1 E2 E3 nu12 nu23 nu13 G12 G23 G13 g : K) :
+    Gen.ortho_AGPE_UNALT_PLATE_all c c3 fn E1 E2 E3 nu12 nu23 nu13 G12 G23 G13 g = Gen.ortho_AGPE_UNALT_all c c3 fn E1 E2 E3 nu12 nu23 nu13 G12 G23 G13 g := by c21_eq
+
 theorem ortho_AGPE_ALT_DEFAULT_agree (E1 E2 E3 nu12 nu23 nu13 G12 G23 G13 g : K) :
     Gen.ortho_AGPE_ALT_DEFAULT_all c c3 fn E1 E2 E3 nu12 nu23 nu13 G12 G23 G13 g = Gen.ortho_AGPE_ALT_all c c3 fn E1 E2 E3 nu12 nu23 nu13 G12 G23 G13 g := by c21_eq
 
 theorem ortho_AGPE_ALT_PIPE_agree (E1 E2 E3 nu12 nu23 nu13 G12 G23 G13 g : K) :
     Gen.ortho_AGPE_ALT_PIPE_all c c3 fn E1 E2 E3 nu12 nu23 nu13 G12 G23 G13 g = Gen.ortho_AGPE_ALT_all c c3 fn E1 E2 E3 nu12 nu23 nu13 G12 G23 G13 g := by c21_eq
+
+theorem ortho_AGPE_ALT_PLATE_agree (E1 E2 E3 nu12 nu23 nu13 G12 G23 G13 g : K) :
+    Gen.ortho_AGPE_ALT_PLATE_all c c3 fn E1 E2 E3 nu12 nu23 nu13 G12 G23 G13 g = Gen.ortho_AGPE_ALT_all c c3 fn E1 E2 E3 nu12 nu23 nu13 G12 G23 G13 g := by c21_eq
 
 theorem ortho_AGPS_UNALT_DEFAULT_agree (E1 E2 E3 nu12 nu23 nu13 G12 G23 G13 g : K) :
     Gen.ortho_AGPS_UNALT_DEFAULT_all c c3 fn E1 E2 E3 nu12 nu23 nu13 G12 G23 G13 g = Gen.ortho_AGPS_UNALT_all c c3 fn E1 E2 E3 nu12 nu23 nu13 G12 G23 G13 g := by c21_eq
@@ -596,11 +603,17 @@ theorem ortho_AGPS_UNALT_DEFAULT_agree (E1 E2 E3 nu12 nu23 nu13 G12 G23 G13 g : 
 theorem ortho_AGPS_UNALT_PIPE_agree (E1 E2 E3 nu12 nu23 nu13 G12 G23 G13 g : K) :
     Gen.ortho_AGPS_UNALT_PIPE_all c c3 fn E1 E2 E3 nu12 nu23 nu13 G12 G23 G13 g = Gen.ortho_AGPS_UNALT_all c c3 fn E1 E2 E3 nu12 nu23 nu13 G12 G23 G13 g := by c21_eq
 
+theorem ortho_AGPS_UNALT_PLATE_agree (E1 E2 E3 nu12 nu23 nu13 G12 G23 G13 g : K) :
+    Gen.ortho_AGPS_UNALT_PLATE_all c c3 fn E1 E2 E3 nu12 nu23 nu13 G12 G23 G13 g = Gen.ortho_AGPS_UNALT_all c c3 fn E1 E2 E3 nu12 nu23 nu13 G12 G23 G13 g := by c21_eq
+
 theorem ortho_AGPS_ALT_DEFAULT_agree (E1 E2 E3 nu12 nu23 nu13 G12 G23 G13 g : K) :
     Gen.ortho_AGPS_ALT_DEFAULT_all c c3 fn E1 E2 E3 nu12 nu23 nu13 G12 G23 G13 g = Gen.ortho_AGPS_ALT_all c c3 fn E1 E2 E3 nu12 nu23 nu13 G12 G23 G13 g := by c21_eq
 
 theorem ortho_AGPS_ALT_PIPE_agree (E1 E2 E3 nu12 nu23 nu13 G12 G23 G13 g : K) :
     Gen.ortho_AGPS_ALT_PIPE_all c c3 fn E1 E2 E3 nu12 nu23 nu13 G12 G23 G13 g = Gen.ortho_AGPS_ALT_all c c3 fn E1 E2 E3 nu12 nu23 nu13 G12 G23 G13 g := by c21_eq
+
+theorem ortho_AGPS_ALT_PLATE_agree (E1 E2 E3 nu12 nu23 nu13 G12 G23 G13 g : K) :
+    Gen.ortho_AGPS_ALT_PLATE_all c c3 fn E1 E2 E3 nu12 nu23 nu13 G12 G23 G13 g = Gen.ortho_AGPS_ALT_all c c3 fn E1 E2 E3 nu12 nu23 nu13 G12 G23 G13 g := by c21_eq
 
 theorem ortho_AXIS_UNALT_DEFAULT_agree (E1 E2 E3 nu12 nu23 nu13 G12 G23 G13 g : K) :
     Gen.ortho_AXIS_UNALT_DEFAULT_all c c3 fn E1 E2 E3 nu12 nu23 nu13 G12 G23 G13 g = Gen.ortho_AXIS_UNALT_all c c3 fn E1 E2 E3 nu12 nu23 nu13 G12 G23 G13 g := by c21_eq
@@ -608,11 +621,17 @@ theorem ortho_AXIS_UNALT_DEFAULT_agree (E1 E2 E3 nu12 nu23 nu13 G12 G23 G13 g : 
 theorem ortho_AXIS_UNALT_PIPE_agree (E1 E2 E3 nu12 nu23 nu13 G12 G23 G13 g : K) :
     Gen.ortho_AXIS_UNALT_PIPE_all c c3 fn E1 E2 E3 nu12 nu23 nu13 G12 G23 G13 g = Gen.ortho_AXIS_UNALT_all c c3 fn E1 E2 E3 nu12 nu23 nu13 G12 G23 G13 g := by c21_eq
 
+theorem ortho_AXIS_UNALT_PLATE_agree (E1 E2 E3 nu12 nu23 nu13 G12 G23 G13 g : K) :
+    Gen.ortho_AXIS_UNALT_PLATE_all c c3 fn E1 E2 E3 nu12 nu23 nu13 G12 G23 G13 g = Gen.ortho_AXIS_UNALT_all c c3 fn E1 E2 E3 nu12 nu23 nu13 G12 G23 G13 g := by c21_eq
+
 theorem ortho_AXIS_ALT_DEFAULT_agree (E1 E2 E3 nu12 nu23 nu13 G12 G23 G13 g : K) :
     Gen.ortho_AXIS_ALT_DEFAULT_all c c3 fn E1 E2 E3 nu12 nu23 nu13 G12 G23 G13 g = Gen.ortho_AXIS_ALT_all c c3 fn E1 E2 E3 nu12 nu23 nu13 G12 G23 G13 g := by c21_eq
 
 theorem ortho_AXIS_ALT_PIPE_agree (E1 E2 E3 nu12 nu23 nu13 G12 G23 G13 g : K) :
     Gen.ortho_AXIS_ALT_PIPE_all c c3 fn E1 E2 E3 nu12 nu23 nu13 G12 G23 G13 g = Gen.ortho_AXIS_ALT_all c c3 fn E1 E2 E3 nu12 nu23 nu13 G12 G23 G13 g := by c21_eq
+
+theorem ortho_AXIS_ALT_PLATE_agree (E1 E2 E3 nu12 nu23 nu13 G12 G23 G13 g : K) :
+    Gen.ortho_AXIS_ALT_PLATE_all c c3 fn E1 E2 E3 nu12 nu23 nu13 G12 G23 G13 g = Gen.ortho_AXIS_ALT_all c c3 fn E1 E2 E3 nu12 nu23 nu13 G12 G23 G13 g := by c21_eq
 
 theorem ortho_PSTRESS_UNALT_DEFAULT_agree (E1 E2 E3 nu12 nu23 nu13 G12 G23 G13 g : K) :
     Gen.ortho_PSTRESS_UNALT_DEFAULT_all c c3 fn E1 E2 E3 nu12 nu23 nu13 G12 G23 G13 g = Gen.ortho_PSTRESS_UNALT_all c c3 fn E1 E2 E3 nu12 nu23 nu13 G12 G23 G13 g := by c21_eq
@@ -626,6 +645,9 @@ theorem ortho_PSTRESS_UNALT_PIPE_reduction (E1 E2 E3 nu12 nu23 nu13 G12 G23 G13 
   rw [ortho_PSTRESS_UNALT_PIPE_swap, ortho_PSTRESS_UNALT_reduction c c3 fn E1 E3 E2 nu13 (nu23 * E3 / E2) nu12 G13 G23 G12 g g,
     ortho_TRIDIM_swap23 c c3 fn E1 E2 E3 nu12 nu23 nu13 G12 G23 G13 g g' h1 h2 h3, block4_swap23]
 
+theorem ortho_PSTRESS_UNALT_PLATE_agree (E1 E2 E3 nu12 nu23 nu13 G12 G23 G13 g : K) :
+    Gen.ortho_PSTRESS_UNALT_PLATE_all c c3 fn E1 E2 E3 nu12 nu23 nu13 G12 G23 G13 g = Gen.ortho_PSTRESS_UNALT_all c c3 fn E1 E2 E3 nu12 nu23 nu13 G12 G23 G13 g := by c21_eq
+
 theorem ortho_PSTRESS_ALT_DEFAULT_agree (E1 E2 E3 nu12 nu23 nu13 G12 G23 G13 g : K) :
     Gen.ortho_PSTRESS_ALT_DEFAULT_all c c3 fn E1 E2 E3 nu12 nu23 nu13 G12 G23 G13 g = Gen.ortho_PSTRESS_ALT_all c c3 fn E1 E2 E3 nu12 nu23 nu13 G12 G23 G13 g := by c21_eq
 
@@ -637,6 +659,9 @@ theorem ortho_PSTRESS_ALT_PIPE_reduction (E1 E2 E3 nu12 nu23 nu13 G12 G23 G13 g 
       = condense4 (pipe4 (Gen.ortho_TRIDIM_UNALT_all c c3 fn E1 E2 E3 nu12 nu23 nu13 G12 G23 G13 g')) := by
   rw [ortho_PSTRESS_ALT_PIPE_swap, ortho_PSTRESS_ALT_reduction c c3 fn E1 E3 E2 nu13 (nu23 * E3 / E2) nu12 G13 G23 G12 g g,
     ortho_TRIDIM_swap23 c c3 fn E1 E2 E3 nu12 nu23 nu13 G12 G23 G13 g g' h1 h2 h3, block4_swap23]
+
+theorem ortho_PSTRESS_ALT_PLATE_agree (E1 E2 E3 nu12 nu23 nu13 G12 G23 G13 g : K) :
+    Gen.ortho_PSTRESS_ALT_PLATE_all c c3 fn E1 E2 E3 nu12 nu23 nu13 G12 G23 G13 g = Gen.ortho_PSTRESS_ALT_all c c3 fn E1 E2 E3 nu12 nu23 nu13 G12 G23 G13 g := by c21_eq
 
 theorem ortho_PSTRAIN_UNALT_DEFAULT_agree (E1 E2 E3 nu12 nu23 nu13 G12 G23 G13 g : K) :
     Gen.ortho_PSTRAIN_UNALT_DEFAULT_all c c3 fn E1 E2 E3 nu12 nu23 nu13 G12 G23 G13 g = Gen.ortho_PSTRAIN_UNALT_all c c3 fn E1 E2 E3 nu12 nu23 nu13 G12 G23 G13 g := by c21_eq
@@ -650,6 +675,9 @@ theorem ortho_PSTRAIN_UNALT_PIPE_reduction (E1 E2 E3 nu12 nu23 nu13 G12 G23 G13 
   rw [ortho_PSTRAIN_UNALT_PIPE_swap, ortho_PSTRAIN_UNALT_reduction c c3 fn E1 E3 E2 nu13 (nu23 * E3 / E2) nu12 G13 G23 G12 g g,
     ortho_TRIDIM_swap23 c c3 fn E1 E2 E3 nu12 nu23 nu13 G12 G23 G13 g g' h1 h2 h3, block4_swap23]
 
+theorem ortho_PSTRAIN_UNALT_PLATE_agree (E1 E2 E3 nu12 nu23 nu13 G12 G23 G13 g : K) :
+    Gen.ortho_PSTRAIN_UNALT_PLATE_all c c3 fn E1 E2 E3 nu12 nu23 nu13 G12 G23 G13 g = Gen.ortho_PSTRAIN_UNALT_all c c3 fn E1 E2 E3 nu12 nu23 nu13 G12 G23 G13 g := by c21_eq
+
 theorem ortho_PSTRAIN_ALT_DEFAULT_agree (E1 E2 E3 nu12 nu23 nu13 G12 G23 G13 g : K) :
     Gen.ortho_PSTRAIN_ALT_DEFAULT_all c c3 fn E1 E2 E3 nu12 nu23 nu13 G12 G23 G13 g = Gen.ortho_PSTRAIN_ALT_all c c3 fn E1 E2 E3 nu12 nu23 nu13 G12 G23 G13 g := by c21_eq
 
@@ -661,6 +689,9 @@ theorem ortho_PSTRAIN_ALT_PIPE_reduction (E1 E2 E3 nu12 nu23 nu13 G12 G23 G13 g 
       = pipe4 (Gen.ortho_TRIDIM_UNALT_all c c3 fn E1 E2 E3 nu12 nu23 nu13 G12 G23 G13 g') := by
   rw [ortho_PSTRAIN_ALT_PIPE_swap, ortho_PSTRAIN_ALT_reduction c c3 fn E1 E3 E2 nu13 (nu23 * E3 / E2) nu12 G13 G23 G12 g g,
     ortho_TRIDIM_swap23 c c3 fn E1 E2 E3 nu12 nu23 nu13 G12 G23 G13 g g' h1 h2 h3, block4_swap23]
+
+theorem ortho_PSTRAIN_ALT_PLATE_agree (E1 E2 E3 nu12 nu23 nu13 G12 G23 G13 g : K) :
+    Gen.ortho_PSTRAIN_ALT_PLATE_all c c3 fn E1 E2 E3 nu12 nu23 nu13 G12 G23 G13 g = Gen.ortho_PSTRAIN_ALT_all c c3 fn E1 E2 E3 nu12 nu23 nu13 G12 G23 G13 g := by c21_eq
 
 theorem ortho_GPSTRAIN_UNALT_DEFAULT_agree (E1 E2 E3 nu12 nu23 nu13 G12 G23 G13 g : K) :
     Gen.ortho_GPSTRAIN_UNALT_DEFAULT_all c c3 fn E1 E2 E3 nu12 nu23 nu13 G12 G23 G13 g = Gen.ortho_GPSTRAIN_UNALT_all c c3 fn E1 E2 E3 nu12 nu23 nu13 G12 G23 G13 g := by c21_eq
@@ -674,6 +705,9 @@ theorem ortho_GPSTRAIN_UNALT_PIPE_reduction (E1 E2 E3 nu12 nu23 nu13 G12 G23 G13
   rw [ortho_GPSTRAIN_UNALT_PIPE_swap, ortho_GPSTRAIN_UNALT_reduction c c3 fn E1 E3 E2 nu13 (nu23 * E3 / E2) nu12 G13 G23 G12 g g,
     ortho_TRIDIM_swap23 c c3 fn E1 E2 E3 nu12 nu23 nu13 G12 G23 G13 g g' h1 h2 h3, block4_swap23]
 
+theorem ortho_GPSTRAIN_UNALT_PLATE_agree (E1 E2 E3 nu12 nu23 nu13 G12 G23 G13 g : K) :
+    Gen.ortho_GPSTRAIN_UNALT_PLATE_all c c3 fn E1 E2 E3 nu12 nu23 nu13 G12 G23 G13 g = Gen.ortho_GPSTRAIN_UNALT_all c c3 fn E1 E2 E3 nu12 nu23 nu13 G12 G23 G13 g := by c21_eq
+
 theorem ortho_GPSTRAIN_ALT_DEFAULT_agree (E1 E2 E3 nu12 nu23 nu13 G12 G23 G13 g : K) :
     Gen.ortho_GPSTRAIN_ALT_DEFAULT_all c c3 fn E1 E2 E3 nu12 nu23 nu13 G12 G23 G13 g = Gen.ortho_GPSTRAIN_ALT_all c c3 fn E1 E2 E3 nu12 nu23 nu13 G12 G23 G13 g := by c21_eq
 
@@ -686,17 +720,26 @@ theorem ortho_GPSTRAIN_ALT_PIPE_reduction (E1 E2 E3 nu12 nu23 nu13 G12 G23 G13 g
   rw [ortho_GPSTRAIN_ALT_PIPE_swap, ortho_GPSTRAIN_ALT_reduction c c3 fn E1 E3 E2 nu13 (nu23 * E3 / E2) nu12 G13 G23 G12 g g,
     ortho_TRIDIM_swap23 c c3 fn E1 E2 E3 nu12 nu23 nu13 G12 G23 G13 g g' h1 h2 h3, block4_swap23]
 
+theorem ortho_GPSTRAIN_ALT_PLATE_agree (E1 E2 E3 nu12 nu23 nu13 G12 G23 G13 g : K) :
+    Gen.ortho_GPSTRAIN_ALT_PLATE_all c c3 fn E1 E2 E3 nu12 nu23 nu13 G12 G23 G13 g = Gen.ortho_GPSTRAIN_ALT_all c c3 fn E1 E2 E3 nu12 nu23 nu13 G12 G23 G13 g := by c21_eq
+
 theorem ortho_TRIDIM_UNALT_DEFAULT_agree (E1 E2 E3 nu12 nu23 nu13 G12 G23 G13 g : K) :
     Gen.ortho_TRIDIM_UNALT_DEFAULT_all c c3 fn E1 E2 E3 nu12 nu23 nu13 G12 G23 G13 g = Gen.ortho_TRIDIM_UNALT_all c c3 fn E1 E2 E3 nu12 nu23 nu13 G12 G23 G13 g := by c21_eq
 
 theorem ortho_TRIDIM_UNALT_PIPE_agree (E1 E2 E3 nu12 nu23 nu13 G12 G23 G13 g : K) :
     Gen.ortho_TRIDIM_UNALT_PIPE_all c c3 fn E1 E2 E3 nu12 nu23 nu13 G12 G23 G13 g = Gen.ortho_TRIDIM_UNALT_all c c3 fn E1 E2 E3 nu12 nu23 nu13 G12 G23 G13 g := by c21_eq
 
+theorem ortho_TRIDIM_UNALT_PLATE_agree (E1 E2 E3 nu12 nu23 nu13 G12 G23 G13 g : K) :
+    Gen.ortho_TRIDIM_UNALT_PLATE_all c c3 fn E1 E2 E3 nu12 nu23 nu13 G12 G23 G13 g = Gen.ortho_TRIDIM_UNALT_all c c3 fn E1 E2 E3 nu12 nu23 nu13 G12 G23 G13 g := by c21_eq
+
 theorem ortho_TRIDIM_ALT_DEFAULT_agree (E1 E2 E3 nu12 nu23 nu13 G12 G23 G13 g : K) :
     Gen.ortho_TRIDIM_ALT_DEFAULT_all c c3 fn E1 E2 E3 nu12 nu23 nu13 G12 G23 G13 g = Gen.ortho_TRIDIM_ALT_all c c3 fn E1 E2 E3 nu12 nu23 nu13 G12 G23 G13 g := by c21_eq
 
 theorem ortho_TRIDIM_ALT_PIPE_agree (E1 E2 E3 nu12 nu23 nu13 G12 G23 G13 g : K) :
     Gen.ortho_TRIDIM_ALT_PIPE_all c c3 fn E1 E2 E3 nu12 nu23 nu13 G12 G23 G13 g = Gen.ortho_TRIDIM_ALT_all c c3 fn E1 E2 E3 nu12 nu23 nu13 G12 G23 G13 g := by c21_eq
+
+theorem ortho_TRIDIM_ALT_PLATE_agree (E1 E2 E3 nu12 nu23 nu13 G12 G23 G13 g : K) :
+    Gen.ortho_TRIDIM_ALT_PLATE_all c c3 fn E1 E2 E3 nu12 nu23 nu13 G12 G23 G13 g = Gen.ortho_TRIDIM_ALT_all c c3 fn E1 E2 E3 nu12 nu23 nu13 G12 G23 G13 g := by c21_eq
 
 /-- the dimension-indexed entry points `computeOrthotropicStiffnessTensorII<N,smt>` -/
 theorem orthoII_N1_agree (E1 E2 E3 nu12 nu23 nu13 G12 G23 G13 g : K) :
